@@ -28,6 +28,9 @@ BREAKING = [
     {"id": "C01-push-dtype", "props": ["C01"], "edits": [E(INFRA, "                dtype=(obs.dtype if self.__data is None else None),\n", "")]},
     {"id": "C01-writerange-wrap-piece", "props": ["C01"], "edits": [E(INFRA, "data[slice(length - (recordsz - ptr), ptr), ...],", "data[slice(length - (recordsz - ptr) + 1, ptr), ...],")]},
     {"id": "C01-reset-keeps-pointer", "props": ["C01"], "edits": [E(INFRA, "            # reset pointer to start\n            self.__pointer = 0", "            # reset pointer to start")]},
+    {"id": "C01-readrange-offbyone", "props": ["C01"], "edits": [E(INFRA, "            offset = offset + (length - 1)", "            offset = offset + length")]},
+    {"id": "C01-writerange-offbyone", "props": ["C01"], "edits": [E(INFRA, "            offset = offset + (obs.shape[-1] - 1)", "            offset = offset + obs.shape[-1]")]},
+    {"id": "C01-end-residue", "props": ["C01"], "edits": [E(INFRA, "end = _unwind_ptr(ptr, offset - length, recordsz)", "end = _unwind_ptr(ptr, offset - length + 1, recordsz)")]},
     # ---------------- C02
     {"id": "C02-ceil-floor-swapped", "props": ["C02"], "edits": [E(INFRA, "prev_idx, next_idx = offset.ceil(), offset.floor()", "prev_idx, next_idx = offset.floor(), offset.ceil()", 2)]},
     {"id": "C02-sample-at", "props": ["C02"], "edits": [E(INFRA, "                dt - dt * (shift % 1),", "                dt * (shift % 1),", 2)]},
